@@ -23,6 +23,8 @@ pub struct Suite {
     pub shadow: Option<Cfg>,
     /// Record the device-write log of every path (for the crash engine).
     pub log_io: bool,
+    /// BFS levels that are explored without looking at the time cap
+    pub uncapped_levels: usize,
     /// Maximum number of Flush/Reopen/Tick symbols per history (0 = unlimited).
     pub max_heavy: usize,
     /// After the last operation re-read every key and the full range.
@@ -543,9 +545,10 @@ pub fn explore(
         par_for_each(items, threads, &stop, |_, (hist, outs_hash)| {
             let heavy = hist.iter().filter(|&&i| is_heavy(&s.ops[i as usize])).count();
             for oi in 0..s.ops.len() as u16 {
-                // the first level always completes, whatever the machine load: a suite
-                // never ends without a fully covered depth
-                if depth >= 1 && deadline.expired() {
+                // the first levels always complete, whatever the machine load: a suite
+                // never ends without a fully covered depth (2 levels without crash
+                // enumeration, 1 with it)
+                if depth >= s.uncapped_levels && deadline.expired() {
                     stop.store(true, Ordering::Relaxed);
                     return;
                 }
